@@ -45,7 +45,7 @@ def load_decoders(ctx):
 
 MIN_HITS = {
     'quick': {"request": 1458323, "prefix": 253373, "extreme_len": 965041, "short": 55738, "decoders_seen": 736},
-    'thorough': {"request": 6957792, "prefix": 1138233, "extreme_len": 4452364, "short": 488332, "decoders_seen": 1689},
+    'thorough': {"request": 13389670, "prefix": 1170451, "extreme_len": 4958361, "short": 506995, "decoders_seen": 1766},
 }
 
 EXTREMES = [b"\xfc", b"\xfd\xff\xff", b"\xfe\xff\xff\xff\xff", b"\xff" + (2**63).to_bytes(8, "little"), b"\xff" * 9, b"\xfe\x00\x00\x00\x80", b"\x4e\xff\xff\xff\x7f", b"\x4e\xff\xff\xff\xff", b"\x4d\xff\xff", b"\x4c\xff", b"\xfd\x00\x00", b"\x5b" + b"\xff" * 8, b"\x9b" + b"\xff" * 8, b"\xbb" + b"\xff" * 8, b"\x7b" + b"\xff" * 8, b"\x5a\xff\xff\xff\xff"]
